@@ -7,6 +7,8 @@ pub use memory::InMemoryStorage;
 
 mod secondary;
 pub use secondary::{SecondaryStorage, StorageOptions as SecondaryStorageOptions};
+#[cfg(risinglight_verif)]
+pub use secondary::verif_api;
 
 mod index;
 pub use index::InMemoryIndex;
